@@ -205,6 +205,7 @@ class Stats:
         self.steps = 0
         self.truncated = False
         self.sleep_pruned = 0
+        self.sample_paths = []
         self.samples = []
         self.max_decisions = 0
 
@@ -228,6 +229,8 @@ def explore(run_path, max_paths=20000, time_budget=None, max_steps=400000, on_pa
         try:
             run_path(ex)
             st.paths += 1
+            if st.paths % 97 == 1 and len(st.sample_paths) < 12:
+                st.sample_paths.append(list(ex.full))
             if on_path:
                 on_path(ex)
         except PathInfeasible:
@@ -276,6 +279,8 @@ def _worker(args):
         try:
             run_path(ex)
             st.paths += 1
+            if st.paths % 97 == 1 and len(st.sample_paths) < 2:
+                st.sample_paths.append(list(ex.full))
         except PathInfeasible:
             st.infeasible += 1
         except SleepBlocked:
@@ -318,6 +323,8 @@ def explore_parallel(run_path, max_paths=20000, time_budget=None, max_steps=4000
         try:
             run_path(ex)
             st.paths += 1
+            if st.paths % 37 == 1 and len(st.sample_paths) < 6:
+                st.sample_paths.append(list(ex.full))
         except PathInfeasible:
             st.infeasible += 1
         except SleepBlocked:
@@ -361,5 +368,7 @@ def explore_parallel(run_path, max_paths=20000, time_budget=None, max_steps=4000
         st.max_decisions = max(st.max_decisions, d["max_decisions"])
         if len(st.samples) < 3:
             st.samples.extend(d["samples"][:1])
+        if len(st.sample_paths) < 12:
+            st.sample_paths.extend(d.get("sample_paths", [])[:2])
     st.wall = time.time() - t0
     return violations, unsupported, st
